@@ -157,6 +157,13 @@ def poll_into(e, st, ref, cx, t, transforms=()):
         return poll_into(e, st, VRef(ref.root, ref.path + (('f', 0),), True), cx, t, (('catch',),) + tuple(transforms))
     if isinstance(fut, VAgg) and fut.name == 'AssertUnwindSafe' and ('f', 0) in fut.fields:
         return poll_into(e, st, VRef(ref.root, ref.path + (('f', 0),), True), cx, t, transforms)
+    if isinstance(fut, VAgg) and fut.name == 'ReadyFuture':
+        # std::future::ready(x): Ready(x) at the first poll
+        pv = _apply_transforms(e, st, VAgg(name='Poll', vname='Ready', disc=0, fields={('v', 'Ready', 0): fut.fields[('f', 0)]}), transforms)
+        f2 = st.frames[-1]
+        e.write_place(st, f2, t.dest, pv)
+        f2.bb = t.target
+        return None
     if isinstance(fut, VAgg) and fut.name == 'Abortable':
         flag = st.objs[fut.extra['oid']].extra
         if flag['aborted']:
@@ -271,6 +278,10 @@ def apply_fn_item(e, st, f, x):
         return VAgg(name='Result', vname='Err', disc=1, fields={('v', 'Err', 0): x})
     if s.endswith('Option::Some'):
         return VAgg(name='Option', vname='Some', disc=1, fields={('v', 'Some', 0): x})
+    if re.match(r'^(std::mem::)?drop::<', txt.strip()):
+        if hasattr(e, 'dropper'):
+            e.dropper.drop(st, x, 'mapped through mem::drop')
+        return UNIT
     m = re.search(r'__PrivResult(?:::<.*>)?::_(\d+)$', txt, re.S)
     if m:
         return VAgg(name='__PrivResult', vname=f"_{m.group(1)}", disc=int(m.group(1)), fields={('v', f"_{m.group(1)}", 0): x})
